@@ -1341,6 +1341,9 @@ class Path:
                 return FuncV(m, v)
             raise SymRaise(mk_exc('AttributeError'))
         if isinstance(v, ExtV):
+            if v.name == 'sys.hash_info' and attr == 'inf':
+                from .intrinsics import PYHASH_INF
+                return PYHASH_INF
             return ExtV(f'{v.name}.{attr}')
         if is_intlike(v):
             if attr in ('bit_length', 'to_bytes', 'as_integer_ratio', 'is_integer', 'bit_count'):
